@@ -77,3 +77,33 @@ pub fn shim_invalid_length<E: serde::de::Error>(n: usize) -> (e: E)
 }
 
 } // verus!
+
+verus! {
+
+// ---- serialisation side -------------------------------------------------------------------------------------------------
+#[verifier::external_trait_specification]
+pub trait ExSerdeSerError: Sized + std::error::Error {
+    type ExternalTraitSpecificationFor: serde::ser::Error;
+}
+
+#[verifier::external_trait_specification]
+pub trait ExSerializer: Sized {
+    type ExternalTraitSpecificationFor: serde::Serializer;
+    type Ok;
+    type Error: serde::ser::Error;
+}
+
+/// Ghost model of `Serializer::serialize_bytes`: what a format does with a byte string is an uninterpreted function of the
+/// serializer and the bytes handed to it (ASSUMPTION A-SER: the result depends on nothing else).
+pub uninterp spec fn ser_bytes_spec<S: serde::Serializer>(s: S, b: Seq<u8>) -> Result<S::Ok, S::Error>;
+
+/// R2 shim for `serializer.serialize_bytes(bytes)`
+#[verifier::external_body]
+pub fn shim_serialize_bytes<S: serde::Serializer>(s: S, b: &[u8]) -> (r: Result<S::Ok, S::Error>)
+    ensures
+        r == ser_bytes_spec(s, b@),
+{
+    s.serialize_bytes(b)
+}
+
+} // verus!
